@@ -23,6 +23,7 @@ RULE = (
     "Non-trivial = >=1 initial draw rejected and >=1 top-up round, or a resumed / enlarged run."
 )
 RULE += " " + ('After the first pass the read-only diagnostics (tempered density, weights, evidence ratio) are evaluated on every recorded population and the population is checked again.')
+RULE += " " + ('Half of the bounded-map configurations use a wide clipping margin (eps = 0.2), so stored coordinates differ visibly from the pre-mutation ones.')
 ASSUMPTIONS = [
     "kernel packages are harness doubles; the analytic proposal logs every batch it hands out",
     "re-evaluation tolerance 4*eps*(|v|+1): SIMD tails may round a row differently in another batch position",
